@@ -33,6 +33,15 @@ Proof.
   intros m st cs Hi x c Hm. destruct (reachable_inv01 m st cs Hi) as (_ & E & _).
   rewrite <- E. apply (reachable_inv_cap m st cs Hi x c Hm).
 Qed.
+(* the step contract S_C13 evaluated on the implementation never fires on the model's own transition
+   (accepted, or refused and leaving everything as it was), from any state with supply = sum <= cap *)
+Theorem c13_contract_never_fires_on_model : forall pre post blk sender o ms,
+  let st := state_of_obs pre false in let st' := state_of_obs post false in
+  Inv01 st -> InvCap st -> step st blk sender o = Ok (st', ms) -> s_c13 pre post sender o true = 0.
+Proof. exact s_c13_sound. Qed.
+Theorem c13_contract_never_fires_on_refusal : forall pre sender o,
+  let st := state_of_obs pre false in Inv01 st -> InvCap st -> s_c13 pre pre sender o false = 0.
+Proof. exact s_c13_sound_refused. Qed.
 Example c13_nonvacuous :
   exists st, instantiate (mkInit [(Some 1, 500)] (Some (Some 2, Some 600))) = Ok st /\
     is_ok (step st (mkBlock 1 1) 2 (Mint (Some 1) 100)) = true /\
@@ -45,3 +54,5 @@ Print Assumptions c13_cap.
 Print Assumptions c13_handover_guard.
 Print Assumptions c13_renounce_forever.
 Print Assumptions c13_balances_within_cap.
+Print Assumptions c13_contract_never_fires_on_model.
+Print Assumptions c13_contract_never_fires_on_refusal.
